@@ -881,8 +881,14 @@ func parallel(n, workers int, f func(i int) (string, error)) ([]string, error) {
 func runC04(tier string, seed uint64, o *Out) error {
 	rng := NewRNG(seed)
 	nEnc, nAgg, nGlb, nSes, nSQL := 250, 1500, 250, 24, 12
+	nNamesT, nNamesG := 240, 24
 	if tier == "thorough" {
 		nEnc, nAgg, nGlb, nSes, nSQL = 3000, 30000, 3000, 200, 80
+		nNamesT, nNamesG = 3000, 120
+	}
+	// output naming of the grouping columns (c04names.go): own generator, so the other families keep their cases
+	if err := namesCases(NewRNG(seed*5000011+7), seed, o, nNamesT, nNamesG); err != nil {
+		return err
 	}
 	// (the encoder lines come last: the driver prints only the first 200 bad lines, and a failing
 	// input is worth more than a byte difference)
